@@ -63,6 +63,9 @@ def stepRingLine (r : RingHead) (buf : List Byte) (w : List String) : Option (Ri
     | ["each"] =>
         let l := ringForEach r r.size.toNat r.tail
         pure (r, buf, ints (l.map fun x => (x.toNat : Int)))
+    | ["eachv"] => do
+        let l ← ringForEachFold r buf (fun (acc : List Byte) _ x => acc ++ [x]) (r.size.toNat + 1) r.tail []
+        pure (r, buf, bytesHex l)
     | ["dump"] => pure (r, buf, bytesHex buf)
     | _ => pure (r, buf, "bad-op")
 
@@ -97,6 +100,11 @@ def stepTyped (t : TRing Int) (isChar : Bool) (w : List String) : Option (TRing 
       let a ← i32 a; let b ← i32 b
       pure (t, toString (t.distance a b).toInt)
   | ["setlast", i] => do let i ← i32 i; pure (t.setLastIndex i, "-")
+  | ["copy"] => pure (TRing.copy 0 t, "-")
+  | ["assign"] => pure (TRing.assign (TRing.mk' 0 3) t, "-")
+  | ["move"] =>
+      let (n, old) := t.move
+      pure (n, s!"{old.buf.length} {old.r.size.toNat}")
   | ["write", d] => do
       let d ← parseBytes? d
       let (r', buf', n) ← ringWrite t.r t.buf (d.map fun b => b.toInt)
@@ -120,17 +128,24 @@ def stepCyc (c : Cyclic Int) (w : List String) : Option (Cyclic Int × String) :
   | ["resize", n] => do let n ← n.toNat?; pure (Cyclic.resize 0 c n, "-")
   | _ => pure (c, "bad-op")
 
+def showOI (o : Option Int) : String := match o with | some v => toString v | none => "fault"
+
+/-- the `int`-checked functions (`fault` = signed overflow) -/
 def stepRc (c : RingCounter) (w : List String) : RingCounter × String :=
   match w with
   | ["inc", a] => match a.toInt? with
-      | some a => (rcIncrement c a, "-")
+      | some a => match rcIncrementC c a with
+          | some c' => (c', "-")
+          | none => (c, "fault")
       | none => (c, "bad-op")
   | ["set", a] => match a.toInt? with
-      | some a => (rcSet c a, "-")
+      | some a => match rcSetC c a with
+          | some c' => (c', "-")
+          | none => (c, "fault")
       | none => (c, "bad-op")
-  | ["prev", a] => (c, (a.toInt?.map fun a => toString (rcPrev c a)).getD "bad-op")
-  | ["last", a] => (c, (a.toInt?.map fun a => toString (rcLast c a)).getD "bad-op")
-  | ["fixpos", a] => (c, (a.toInt?.map fun a => toString (rcFixupPos c a)).getD "bad-op")
+  | ["prev", a] => (c, (a.toInt?.map fun a => showOI (rcPrevC c a)).getD "bad-op")
+  | ["last", a] => (c, (a.toInt?.map fun a => showOI (rcLastC c a)).getD "bad-op")
+  | ["fixpos", a] => (c, (a.toInt?.map fun a => showOI (rcFixupPosC c a)).getD "bad-op")
   | ["get"] => (c, toString (rcGet c))
   | _ => (c, "bad-op")
 
@@ -151,6 +166,26 @@ def stepBring (b : ByteRing) (mem : List Byte) (w : List String) : Option (ByteR
   | ["popn"] => do let (b', v) ← brPopNocheck b mem; pure (b', mem, toString v)
   | ["dump"] => pure (b, mem, bytesHex mem)
   | _ => pure (b, mem, "bad-op")
+
+/-- `lifecount <n> <script>`: a ring<Tracked>(n) runs the script (u push, o pop,
+c clear, z resize(n), y copy-construct and continue with the copy, m move-construct
+and continue with the new object) and is destroyed; the three lifetime counters -/
+def lifeScript (l : LRing Int) (n : Nat) : List Char → Nat → Option (LRing Int)
+  | [], _ => some l.destroy
+  | ch :: rest, k =>
+    match ch with
+    | 'u' => (l.push (k : Int)).bind fun l' => lifeScript l' n rest (k + 1)
+    | 'o' => l.pop.bind fun l' => lifeScript l' n rest k
+    | 'c' => (LRing.clear (l.t.r.size.toNat + 1) l).bind fun l' => lifeScript l' n rest k
+    | 'z' => lifeScript (LRing.resize 0 l n) n rest k
+    | 'y' => lifeScript (LRing.copyAndDrop 0 l) n rest k
+    | 'm' => lifeScript l.moveAndDrop n rest k
+    | _ => none
+
+def lifeCount (n : Nat) (script : String) : String :=
+  match lifeScript (LRing.mk' 0 n) n (if script == "-" then [] else script.toList) 0 with
+  | some l => s!"{l.overLive} {l.deadDtor} {l.deadRead}"
+  | none => "fault"
 
 def stepLine (s : St) (line : String) : St × String :=
   match words line with
@@ -175,6 +210,10 @@ def stepLine (s : St) (line : String) : St × String :=
   | ["reset", "rc", n] =>
       match n.toInt? with
       | some k => let c := rcInit k; (.rc c, s!"- {c.counter}")
+      | none => (s, "bad-op")
+  | ["lifecount", n, script] =>
+      match n.toNat? with
+      | some k => (s, lifeCount k script)
       | none => (s, "bad-op")
   | "lifeprobe" :: _ => (s, "-")   -- oracle-only operation: object lifetime is not modelled
   | w =>
